@@ -293,7 +293,10 @@ func judgeC08(e *Env, c *cliCase, o cliObs) []hsVerdict {
 	if o.Res.R == "ok" && o.Res.Ses != nil && o.Res.Ses.State == "established" {
 		if lastSes == nil || lastSes.State != "established" {
 			out = append(out, hsVerdict{"c08-established-untruthful", "the client reports an established session although the server's last session envelope was not established"})
-		} else if !o.Established || o.State != "established" {
+		} else if o.State != "established" {
+			// (a server that goes on sending session envelopes after `established` makes the client
+			// drop the connection: the call still reports what the server's last word was, and the
+			// channel's state says so; whether the connection survived is not part of the statement)
 			out = append(out, hsVerdict{"c08-established-state", "EstablishSession returned an established session but the channel is not established (state " + o.State + ")"})
 		} else if o.Sid != lastSes.ID || o.Local != lastSes.To || o.Remote != lastSes.From {
 			out = append(out, hsVerdict{"c08-established-fields", fmt.Sprintf("established: id/local/remote %q %v %v differ from the envelope's id/to/from %q %v %v", o.Sid, o.Local, o.Remote, lastSes.ID, lastSes.To, lastSes.From)})
